@@ -48,7 +48,7 @@ inductive Kind where
 /-- the table of entry points: name in the line protocol ↦ data flow.
 
 This is a hand-written literal list.  It is meant to have one entry for every name the
-runner (`/verif/harness/src/ops_rand.rs`, function `one`) offers — 67 names at the time of
+runner (`/verif/harness/src/ops_rand.rs`, function `one`) offers — 68 names at the time of
 writing, the last nine only in nightly builds — plus one entry (`heapbytes_gen_locked0`, the
 last) that the runner does NOT offer, see below; but nothing in Lean ties it to the Rust
 source: agreement of the two lists is checked by the differential run (an entry-point name
@@ -90,7 +90,7 @@ def table : List (String × Kind) := [
   ("box_seal", .ephemeral), ("pwhash_str", .saltText),
   ("stack_gen32", .raw 32), ("stack_gen24", .raw 24), ("array_gen32", .raw 32), ("vec_gen32", .raw 32), ("vec_gen8", .raw 8),
   ("stack_gen8", .raw 8), ("stack_gen5", .raw 5), ("array_gen7", .raw 7),
-  ("array_gen257", .raw 257), ("array_gen1000", .raw 1000), ("stack_gen300", .raw 300), ("vec_gen513", .raw 513),
+  ("box_seal_oversize", .ephemeral), ("array_gen257", .raw 257), ("array_gen1000", .raw 1000), ("stack_gen300", .raw 300), ("vec_gen513", .raw 513),
   ("keypair_gen", .keypair), ("keypair_gen_with_defaults", .keypair),
   ("signing_keypair_gen", .signKeypair), ("signing_keypair_gen_with_defaults", .signKeypair),
   ("kdf_gen", .two 32 8), ("kdf_gen_with_defaults", .two 32 8),
